@@ -85,7 +85,7 @@ Proof.
     rewrite Hl in *.
     cbn [app copy_loop].
     destruct (bound <=? lenN dst) eqn:E1; [lia|].
-    destruct (lenN dst =? ARG_STR_MAX) eqn:E2; [lia|].
+    destruct (lenN dst =? ARG_STR_MAX) eqn:E2; [lia|]. cbn [andb].
     rewrite nthN_app_last.
     destruct (c =? 0) eqn:E3; [lia|].
     rewrite (IH rest (lenN dst + 1) bound (dst ++ [c]) (len + 1)); try assumption.
@@ -95,30 +95,30 @@ Proof.
     + lia.
 Qed.
 
-(* a string shorter than ARG_STR_MAX that fits is copied whole, with its NUL *)
+(* a string of at most ARG_STR_MAX characters that fits is copied whole, with its NUL *)
 Lemma copy_loop_short : forall s junk bound,
-  nz s -> lenN s < ARG_STR_MAX -> lenN s < bound ->
+  nz s -> lenN s <= ARG_STR_MAX -> lenN s < bound ->
   copy_loop (s ++ 0 :: junk) 0 bound [] 0 = (s ++ [0], lenN s).
 Proof.
   intros s junk bound Hnz H98 Hb.
   rewrite copy_loop_prefix; try assumption; try reflexivity; try lia.
   cbn [copy_loop app]. rewrite !N.add_0_l.
   destruct (bound <=? lenN s) eqn:E1; [lia|].
-  destruct (lenN s =? ARG_STR_MAX) eqn:E2; [lia|].
+  change (0 =? 0) with true. cbn [negb]. rewrite andb_false_r.
   rewrite nthN_app_last. reflexivity.
 Qed.
 
-(* the loop stops at i = ARG_STR_MAX whatever it finds there: a string of ARG_STR_MAX or more
-   characters becomes its first ARG_STR_MAX-3 characters and "..." *)
+(* a string of more than ARG_STR_MAX characters becomes its first ARG_STR_MAX-3 characters and "..." *)
 Lemma copy_loop_long : forall s1 c junk bound,
-  nz s1 -> lenN s1 = ARG_STR_MAX -> ARG_STR_MAX < bound ->
+  nz s1 -> lenN s1 = ARG_STR_MAX -> c <> 0 -> ARG_STR_MAX < bound ->
   copy_loop (s1 ++ c :: junk) 0 bound [] 0 = (takeN (ARG_STR_MAX - 3) s1 ++ [46; 46; 46; 0], ARG_STR_MAX).
 Proof.
-  intros s1 c junk bound Hnz H98 Hb.
+  intros s1 c junk bound Hnz H98 Hc Hb.
   rewrite copy_loop_prefix; try assumption; try reflexivity; try lia.
   cbn [copy_loop app]. rewrite !N.add_0_l, H98.
   destruct (bound <=? ARG_STR_MAX) eqn:E1; [lia|].
   rewrite N.eqb_refl.
+  destruct (c =? 0) eqn:E0; [lia|]. cbn [negb andb].
   assert (Hd : dots ARG_STR_MAX (s1 ++ [c]) = takeN (ARG_STR_MAX - 3) s1 ++ [46; 46; 46; 0]).
   { unfold dots, takeN. rewrite firstn_app.
     replace (N.to_nat (ARG_STR_MAX - 3) - length s1)%nat with 0%nat
@@ -146,6 +146,15 @@ Proof.
   destruct rest; cbn [copy_loop]; rewrite N.leb_refl; reflexivity.
 Qed.
 
+Lemma nth_dots : forall i dst c, lenN dst = i -> 3 <= i -> nthN (dots i (dst ++ [c])) i = 0.
+Proof.
+  intros i dst c Hd H3. unfold dots, nthN, takeN. rewrite app_nth2.
+  - rewrite firstn_length, app_length. simpl length. unfold lenN in Hd.
+    replace (N.to_nat i - Nat.min (N.to_nat (i - 3)) (length dst + 1))%nat with 3%nat by lia.
+    reflexivity.
+  - rewrite firstn_length, app_length. simpl length. unfold lenN in Hd. lia.
+Qed.
+
 (* the length the loop reports never exceeds ARG_STR_MAX *)
 Lemma copy_loop_len : forall src i bound dst len,
   lenN dst = i -> i <= ARG_STR_MAX -> len <= i -> snd (copy_loop src i bound dst len) <= ARG_STR_MAX.
@@ -154,17 +163,10 @@ Proof.
   - cbn [copy_loop]. destruct (bound <=? i); simpl; lia.
   - cbn [copy_loop]. destruct (bound <=? i) eqn:E1; [simpl; lia|].
     destruct (i =? ARG_STR_MAX) eqn:E2.
-    + apply N.eqb_eq in E2.
-      assert (Hn : nthN (dots i (dst ++ [c])) i = 0).
-      { unfold dots, nthN, takeN. rewrite app_nth2.
-        - rewrite firstn_length, app_length. simpl length.
-          unfold lenN in Hd. unfold ARG_STR_MAX in *.
-          replace (N.to_nat i - Nat.min (N.to_nat (i - 3)) (length dst + 1))%nat with 3%nat by lia.
-          reflexivity.
-        - rewrite firstn_length, app_length. simpl length.
-          unfold lenN in Hd. unfold ARG_STR_MAX in *. lia. }
-      rewrite Hn. simpl. lia.
-    + destruct (nthN (dst ++ [c]) i =? 0) eqn:E3; [simpl; lia|].
+    + destruct (c =? 0) eqn:E0; cbn [negb andb].
+      * rewrite <- Hd, nthN_app_last, E0. simpl. lia.
+      * rewrite nth_dots by (try assumption; unfold ARG_STR_MAX in *; lia). simpl. lia.
+    + cbn [andb]. destruct (nthN (dst ++ [c]) i =? 0) eqn:E3; [simpl; lia|].
       apply IH.
       * rewrite lenN_app. unfold lenN at 2. simpl. lia.
       * lia.
@@ -193,21 +195,27 @@ Proof.
     [right; left; reflexivity|].
   match goal with |- context [match ?f with Some _ => _ | None => _ end] => destruct f as [[sw val]|] eqn:Ef end;
     [|right; left; reflexivity].
-  right; right. split; [reflexivity|].
   destruct (is_strfmt (s_fmt s)) eqn:Estr.
-  - match goal with |- context [if ?p =? 0 then _ else _] => destruct (p =? 0) eqn:Ep0 end.
-    + do 3 eexists. split; [reflexivity|].
+  - destruct (MAX_SIZE <? m_total st + 4); [right; left; reflexivity|].
+    match goal with |- context [if ?p =? 0 then _ else _] => destruct (p =? 0) eqn:Ep0 end.
+    + destruct (MAX_SIZE <? m_total st + ALIGN (4 + 2) 4); [right; left; reflexivity|].
+      right; right. split; [reflexivity|].
+      do 3 eexists. split; [reflexivity|].
       unfold chunk_ok. rewrite Estr. exists 4, null_str. split; [reflexivity|]. split; [lia|reflexivity].
     + match goal with |- context [copy_loop ?a ?b ?c ?d ?e] => destruct (copy_loop a b c d e) as [dst len] eqn:Ec end.
+      right; right. split; [reflexivity|].
       do 3 eexists. split; [reflexivity|].
-      unfold chunk_ok. rewrite Estr. exists len, dst. split; [reflexivity|].
+      unfold chunk_ok. rewrite Estr. eexists len, _. split; [reflexivity|].
       split; [|reflexivity].
       match type of Ec with copy_loop ?a ?b ?c ?d ?e = _ =>
         pose proof (copy_loop_len a b c d e eq_refl) as Hl end.
       rewrite Ec in Hl. simpl in Hl. unfold ARG_STR_MAX in Hl. lia.
   - destruct (fmt_eqb (s_fmt s) FStruct) eqn:Est.
-    + do 3 eexists. split; [reflexivity|]. unfold chunk_ok. rewrite Estr. reflexivity.
-    + do 3 eexists. split; [reflexivity|]. unfold chunk_ok. rewrite Estr. reflexivity.
+    + right; right. split; [reflexivity|].
+      do 3 eexists. split; [reflexivity|]. unfold chunk_ok. rewrite Estr. reflexivity.
+    + destruct (MAX_SIZE <? m_total st + ALIGN (s_size s) 4); [right; left; reflexivity|].
+      right; right. split; [reflexivity|].
+      do 3 eexists. split; [reflexivity|]. unfold chunk_ok. rewrite Estr. reflexivity.
 Qed.
 
 (* ------------------------------------------------------------------ reader framing = writer framing *)
@@ -338,20 +346,27 @@ Qed.
 (* the loop is left by `break` only when the data is already too big (or the step is not modelled) *)
 Definition stop_inv (st : mst) : Prop := m_stop st = true -> m_unmodelled st = true \/ MAX_SIZE < m_total st.
 
+Lemma refuse_stop_inv : forall st n, MAX_SIZE < m_total st + n -> stop_inv (refuse st n).
+Proof. intros st n H _. right. exact H. Qed.
+
 Lemma step_stop_inv : forall fill inp is_ret st s, stop_inv st -> stop_inv (step fill inp is_ret st s).
 Proof.
   intros fill inp is_ret st s H. unfold step.
   destruct (m_stop st) eqn:Es; [exact H|].
   destruct (negb (Bool.eqb is_ret (s_idx s =? 0))); [exact H|].
   destruct (fmt_eqb (s_fmt s) FStruct && (MAX_SIZE <? m_total st + s_size s)) eqn:Ep.
-  - intros _. right. cbn [m_total]. apply andb_prop in Ep. lia.
+  - apply refuse_stop_inv. apply andb_prop in Ep. lia.
   - match goal with |- context [match ?f with Some _ => _ | None => _ end] => destruct f as [[sw val]|] end.
     + destruct (is_strfmt (s_fmt s)).
-      * match goal with |- context [if ?p =? 0 then _ else _] => destruct (p =? 0) end.
-        { intro Hc. discriminate Hc. }
+      * destruct (MAX_SIZE <? m_total st + 4) eqn:E4; [apply refuse_stop_inv; lia|].
+        match goal with |- context [if ?p =? 0 then _ else _] => destruct (p =? 0) end.
+        { destruct (MAX_SIZE <? m_total st + ALIGN (4 + 2) 4) eqn:E8; [apply refuse_stop_inv; lia|].
+          intro Hc. discriminate Hc. }
         { match goal with |- context [copy_loop ?a ?b ?c ?d ?e] => destruct (copy_loop a b c d e) end.
           intro Hc. discriminate Hc. }
-      * destruct (fmt_eqb (s_fmt s) FStruct); intro Hc; discriminate Hc.
+      * destruct (fmt_eqb (s_fmt s) FStruct); [intro Hc; discriminate Hc|].
+        destruct (MAX_SIZE <? m_total st + ALIGN (s_size s) 4) eqn:E8; [apply refuse_stop_inv; lia|].
+        intro Hc. discriminate Hc.
     + intros _. left. reflexivity.
 Qed.
 
@@ -466,35 +481,33 @@ Proof.
   - rewrite decode_header by (try assumption; lia). reflexivity.
 Qed.
 
-(* ------------------------------------------------------------------ refutations (the code as it is) *)
+(* ------------------------------------------------------------------ witnesses (the code as it is) *)
 Definition spec_str (n : N) : spec := Sp n FStr 8 TIndex 0.
 Definition inp1 (rdi : N) (ss : list (N * list N)) : inputs :=
   {| regs := [rdi; 0; 0; 0; 0; 0]; xmm := []; stk := []; rets := [0; 0]; strs := ss; wrds := [] |}.
 Definition s98 : list N := repeat 65 98.
 
-(* a string of exactly ARG_STR_MAX characters fits, yet it is recorded (and shown) as 95 characters + "..." *)
-Lemma len98_refuted :
+(* repaired: a string of exactly ARG_STR_MAX characters is recorded and shown whole *)
+Lemma len98_intact :
   let st := run 0 (inp1 4096 [(4096, s98)]) false [spec_str 1] in
-  payload st = Some (le_bytes 2 98 ++ repeat 65 95 ++ [46; 46; 46]) /\
-  ok_args [(spec_str 1, AStr s98)] (show_args [] [spec_str 1] (payload st)) = false.
+  payload st = Some (le_bytes 2 98 ++ s98) /\
+  ok_args [(spec_str 1, AStr s98)] (show_args [] [spec_str 1] (payload st)) = true.
 Proof. vm_compute. split; reflexivity. Qed.
 
-(* one character less and it is intact *)
-Lemma len97_ok :
-  let st := run 0 (inp1 4096 [(4096, repeat 65 97)]) false [spec_str 1] in
-  ok_args [(spec_str 1, AStr (repeat 65 97))] (show_args [] [spec_str 1] (payload st)) = true.
-Proof. vm_compute. reflexivity. Qed.
+(* ... and 99 characters become 95 + "..." *)
+Lemma len99_truncated :
+  let st := run 0 (inp1 4096 [(4096, repeat 65 99)]) false [spec_str 1] in
+  payload st = Some (le_bytes 2 98 ++ repeat 65 95 ++ [46; 46; 46]) /\
+  ok_args [(spec_str 1, AStr (repeat 65 99))] (show_args [] [spec_str 1] (payload st)) = true.
+Proof. vm_compute. split; reflexivity. Qed.
 
-(* `arg1/c64,arg2/i32`: the writer advances 8 bytes for the char, get_argspec_string 4: arg2 is shown
-   from the upper half of arg1 *)
-Lemma c64_refuted :
+(* repaired: `arg1/c64,arg2/i32` *)
+Lemma c64_ok :
   let specs := [Sp 1 FChar 8 TIndex 0; Sp 2 FSint 4 TIndex 0] in
   let inp := {| regs := [0x1122334455667741; 7; 0; 0; 0; 0]; xmm := []; stk := []; rets := []; strs := []; wrds := [] |} in
-  let st := run 0 inp false specs in
-  show_args [] specs (payload st) = [40; 39; 65; 39; 44; 32] ++ dec 0x11223344 ++ [41] /\
   ok_args [(Sp 1 FChar 8 TIndex 0, AInt 0x1122334455667741); (Sp 2 FSint 4 TIndex 0, AInt 7)]
-          (show_args [] specs (payload st)) = false.
-Proof. vm_compute. split; reflexivity. Qed.
+          (show_args [] specs (payload (run 0 inp false specs))) = true.
+Proof. vm_compute. reflexivity. Qed.
 
 (* the string "\xff\xff\xff\xff" is shown as NULL (the readers' NULL marker; the writer stores "NULL" for NULL) *)
 Lemma ffff_refuted :
@@ -502,29 +515,15 @@ Lemma ffff_refuted :
   show_args [] [spec_str 1] (payload st) = [40] ++ null_str ++ [41].
 Proof. vm_compute. reflexivity. Qed.
 
-(* stores past the frame's argument buffer *)
-(* (a) on the success path: 1016 bytes of struct, then "ab": total 1020 is accepted, the NUL goes to argbuf[1024] *)
-Lemma overflow_success_refuted :
+(* repaired: a string that ends exactly at the limit is accepted and its NUL is not stored *)
+Lemma limit_string_inside :
   let specs := [ {| s_idx := 30; s_fmt := FStruct; s_size := 1016; s_type := TStack; s_u := 1%Z; s_regs := []; s_name := [] |};
                  spec_str 1 ] in
   let st := run 0 (inp1 4096 [(4096, [97; 98])]) false specs in
-  result st = Some 1020 /\ m_hi st = ARGBUF_SIZE + 1.
+  result st = Some 1020 /\ m_hi st = ARGBUF_SIZE.
 Proof. vm_compute. split; reflexivity. Qed.
 
-(* (b) on the failure path a string writes two bytes past the end *)
-Lemma overflow_fail_refuted :
-  let specs := [ {| s_idx := 30; s_fmt := FStruct; s_size := 1016; s_type := TStack; s_u := 1%Z; s_regs := []; s_name := [] |};
-                 spec_str 1 ] in
-  let st := run 0 (inp1 4096 [(4096, [97; 98; 99; 100; 101])]) false specs in
-  result st = None /\ m_hi st = ARGBUF_SIZE + 2.
-Proof. vm_compute. split; reflexivity. Qed.
-
-(* (c) scalars are copied before the limit is looked at: n eight-byte arguments store 8n bytes *)
 Definition many_specs (n : nat) : list spec := map (fun i => Sp (N.of_nat i) FAuto 8 TIndex 0) (seq 1 n).
-Lemma overflow_scalars_refuted :
-  let st := run 0 (inp1 0 []) false (many_specs 100 ++ map (fun i => Sp 1 FHex 8 TStack (N.of_nat i)) (seq 1 40)) in
-  result st = None /\ m_hi st = ARGBUF_SIZE + 100.
-Proof. vm_compute. split; reflexivity. Qed.
 
 (* argument numbers 101..108 alias the xmm register numbers in mcount_get_register_arg *)
 Lemma arg101_reads_xmm0_refuted :
@@ -541,32 +540,19 @@ Lemma struct18_tail_lost_refuted :
   Some [1; 2; 3; 4; 5; 6; 7; 8; 9; 10; 11; 12; 13; 14; 15; 16; 0xA5; 0xA5; 0xA5; 0xA5].
 Proof. vm_compute. reflexivity. Qed.
 
+(* a struct given with registers is copied 8 bytes per register (plus spec->size bytes from the stack,
+   reg_idx and stack_ofs share a union): near the limit this still leaves the buffer *)
+Lemma struct_regs_overflow_refuted :
+  let specs := [ {| s_idx := 30; s_fmt := FStruct; s_size := 1016; s_type := TStack; s_u := 1%Z; s_regs := []; s_name := [] |};
+                 {| s_idx := 1; s_fmt := FStruct; s_size := 4; s_type := TReg; s_u := 2%Z; s_regs := [1%Z; 2%Z]; s_name := [] |} ] in
+  let st := run 0 (inp1 7 []) false specs in
+  result st = Some 1020 /\ m_hi st = ARGBUF_SIZE + 16.
+Proof. vm_compute. split; reflexivity. Qed.
+
 (* ------------------------------------------------------------------ how far the stores go *)
-Lemma length_dots : forall i dst, lenN dst = i + 1 -> 3 <= i -> lenN (dots i dst) = i + 1.
-Proof.
-  intros i dst H H3. unfold dots. rewrite lenN_app. unfold takeN, lenN in *.
-  rewrite firstn_length. simpl length. lia.
-Qed.
-
-Lemma copy_loop_dstlen : forall src i bound dst len,
-  lenN dst = i -> len = i -> lenN (fst (copy_loop src i bound dst len)) <= snd (copy_loop src i bound dst len) + 1.
-Proof.
-  induction src as [|c rest IH]; intros i bound dst len Hd Hl.
-  - cbn [copy_loop]. destruct (bound <=? i); simpl; lia.
-  - cbn [copy_loop]. destruct (bound <=? i) eqn:E1; [simpl; lia|].
-    assert (H1 : lenN (dst ++ [c]) = i + 1) by (rewrite lenN_app; unfold lenN at 2; simpl; lia).
-    destruct (i =? ARG_STR_MAX) eqn:E2.
-    + assert (H2 : lenN (dots i (dst ++ [c])) = i + 1).
-      { apply length_dots; [exact H1|]. unfold ARG_STR_MAX in E2. lia. }
-      destruct (nthN (dots i (dst ++ [c])) i =? 0); [simpl; lia|].
-      apply IH; lia.
-    + destruct (nthN (dst ++ [c]) i =? 0); [simpl; lia|].
-      apply IH; lia.
-Qed.
-
 Definition no_struct (s : spec) : Prop := fmt_eqb (s_fmt s) FStruct = false.
 Definition val_ok (st : mst) : Prop := lenN (m_val st) = VAL_SIZE.
-Definition hi_inv (st : mst) : Prop := m_hi st <= 4 + m_total st + 1.
+Definition hi_inv (st : mst) : Prop := m_hi st <= ARGBUF_SIZE.
 
 Lemma length_over : forall l old, (length l <= length old)%nat -> length (over l old) = length old.
 Proof. intros. unfold over. rewrite app_length, skipn_length. lia. Qed.
@@ -611,9 +597,9 @@ Proof.
 Qed.
 
 Lemma emit_hi : forall fill st val w adv,
-  hi_inv st -> lenN w <= adv + 1 -> hi_inv (emit fill st val w adv).
+  hi_inv st -> 4 + m_total st + lenN w <= ARGBUF_SIZE -> hi_inv (emit fill st val w adv).
 Proof.
-  intros fill st val w adv H Hw. unfold hi_inv in *. unfold emit. cbn [m_hi m_total].
+  intros fill st val w adv H Hw. unfold hi_inv in *. unfold emit. cbn [m_hi].
   destruct w; lia.
 Qed.
 
@@ -625,40 +611,40 @@ Proof.
   match goal with |- context [match ?f with Some _ => _ | None => _ end] => destruct f as [[sw val]|] end;
     [|exact H].
   destruct (is_strfmt (s_fmt s)).
-  - match goal with |- context [if ?p =? 0 then _ else _] => destruct (p =? 0) end.
-    + apply emit_hi; [exact H|]. vm_compute. discriminate.
-    + match goal with |- context [copy_loop ?a ?b ?c ?d ?e] =>
-        pose proof (copy_loop_dstlen a b c d e eq_refl eq_refl) as Hl;
-        destruct (copy_loop a b c d e) as [dst len] end.
-      cbn [fst snd] in Hl.
+  - destruct (MAX_SIZE <? m_total st + 4) eqn:E4; [exact H|].
+    match goal with |- context [if ?p =? 0 then _ else _] => destruct (p =? 0) end.
+    + destruct (MAX_SIZE <? m_total st + ALIGN (4 + 2) 4) eqn:E8; [exact H|].
       apply emit_hi; [exact H|].
-      rewrite lenN_app, lenN_le_bytes. pose proof (ALIGN4_ge (len + 2)). lia.
-  - apply emit_hi; [exact H|].
-    unfold takeN, lenN. rewrite firstn_length. lia.
+      change (lenN ([4; 0] ++ null_str)) with 6. change (ALIGN (4 + 2) 4) with 8 in E8.
+      unfold MAX_SIZE, ARGBUF_SIZE in *. lia.
+    + match goal with |- context [copy_loop ?a ?b ?c ?d ?e] => destruct (copy_loop a b c d e) as [dst len] end.
+      apply emit_hi; [exact H|].
+      rewrite lenN_app, lenN_le_bytes.
+      assert (Hb : (MAX_SIZE + U32 - m_total st mod U32) mod U32 = MAX_SIZE - m_total st).
+      { unfold MAX_SIZE, ARGBUF_SIZE, U32 in *. rewrite (N.mod_small (m_total st)) by lia.
+        replace (1024 - 4 + 4294967296 - m_total st) with ((1024 - 4 - m_total st) + 1 * 4294967296) by lia.
+        rewrite N.mod_add by lia. apply N.mod_small. lia. }
+      rewrite Hb.
+      assert (Ht : lenN (takeN (MAX_SIZE - m_total st - 2) dst) <= MAX_SIZE - m_total st - 2).
+      { unfold takeN, lenN. rewrite firstn_length. lia. }
+      unfold MAX_SIZE, ARGBUF_SIZE in *. lia.
+  - destruct (MAX_SIZE <? m_total st + ALIGN (s_size s) 4) eqn:E8; [exact H|].
+    apply emit_hi; [exact H|].
+    assert (Ht : lenN (takeN (ALIGN (s_size s) 4) val) <= ALIGN (s_size s) 4).
+    { unfold takeN, lenN. rewrite firstn_length. lia. }
+    unfold MAX_SIZE, ARGBUF_SIZE in *. lia.
 Qed.
 
-(* Without struct specs no store goes further than one byte past the data accepted so far:
-   hi <= 4 + total_size + 1, whether or not the limit is respected. *)
-Theorem store_extent : forall fill inp is_ret specs,
-  Forall no_struct specs -> hi_inv (run fill inp is_ret specs).
+(* C09 within the buffer: without struct specs NO store of save_to_argbuf goes past the frame's 1024-byte
+   argument buffer - for every spec list and every input, accepted or refused. *)
+Theorem within_argbuf : forall fill inp is_ret specs,
+  Forall no_struct specs -> m_hi (run fill inp is_ret specs) <= ARGBUF_SIZE.
 Proof.
   intros fill inp is_ret specs Hns. unfold run.
-  assert (H0 : hi_inv mst0) by (unfold hi_inv; simpl; lia).
+  assert (H0 : hi_inv mst0) by (unfold hi_inv; simpl; unfold ARGBUF_SIZE; lia).
   revert H0. generalize mst0.
   induction Hns as [|s r Hs Hr IH]; intros st H; simpl; [exact H|].
   apply IH. apply step_hi; assumption.
-Qed.
-
-(* ... so when save_to_argbuf accepts the data, at most ONE byte (a string's NUL) is stored past the
-   1024-byte buffer (overflow_success_refuted shows that this byte really is stored). *)
-Corollary store_bound_success : forall fill inp is_ret specs n,
-  Forall no_struct specs -> result (run fill inp is_ret specs) = Some n ->
-  m_hi (run fill inp is_ret specs) <= ARGBUF_SIZE + 1.
-Proof.
-  intros fill inp is_ret specs n Hns Hr.
-  pose proof (store_extent fill inp is_ret specs Hns) as H. unfold hi_inv in H.
-  unfold result in Hr. destruct (MAX_SIZE <? m_total (run fill inp is_ret specs)) eqn:E; [discriminate|].
-  unfold MAX_SIZE, ARGBUF_SIZE in *. lia.
 Qed.
 
 (* ------------------------------------------------------------------ fetch: which word is captured *)
@@ -847,18 +833,18 @@ Proof.
   - (* FOct *) split; [|reflexivity]. right. right. right. left. unfold printf_int. rewrite Hvm. reflexivity.
 Qed.
 
-(* C09 characters: `/c` (sizes 1, 2, 4; size 8 is c64_refuted) *)
+(* C09 characters: `/c`, every size *)
 Theorem char_shown : forall syms s w later,
-  s_fmt s = FChar -> s_size s = 1 \/ s_size s = 2 \/ s_size s = 4 ->
+  s_fmt s = FChar -> s_size s = 1 \/ s_size s = 2 \/ s_size s = 4 \/ s_size s = 8 ->
   let data := takeN (ALIGN (s_size s) 4) (le_bytes 8 w) ++ later in
   In (fst (show_one syms s data)) (accept s (AInt w)) /\ snd (show_one syms s data) = ALIGN (s_size s) 4.
 Proof.
   intros syms s w later Hf Hs. cbv zeta.
   destruct s as [idx f size ty u rs nm]. cbn [s_fmt s_size] in *. subst f.
   unfold show_one, accept. cbn [s_fmt s_size fst snd].
-  assert (HA : ALIGN size 4 = 4) by (destruct Hs as [-> | [-> | ->]]; reflexivity).
-  rewrite HA. split; [|reflexivity]. left.
-  assert (Hn : nthN (takeN 4 (le_bytes 8 w) ++ later) 0 = w mod 256) by reflexivity.
+  split; [|reflexivity]. left.
+  assert (Hn : nthN (takeN (ALIGN size 4) (le_bytes 8 w) ++ later) 0 = w mod 256)
+    by (destruct Hs as [-> | [-> | [-> | ->]]]; reflexivity).
   rewrite Hn. reflexivity.
 Qed.
 
@@ -932,11 +918,13 @@ Definition is_arg (s : spec) : Prop := (s_idx s =? 0) = false.
 
 Lemma step_int : forall fill inp st s,
   m_stop st = false -> is_arg s -> is_strfmt (s_fmt s) = false -> no_struct s ->
+  m_total st + ALIGN (s_size s) 4 <= MAX_SIZE ->
   step fill inp false st s =
   emit fill st (get_arg inp s (m_val st)) (takeN (ALIGN (s_size s) 4) (get_arg inp s (m_val st))) (ALIGN (s_size s) 4).
 Proof.
-  intros fill inp st s Hst Ha Hstr Hns. unfold step. rewrite Hst. unfold is_arg in Ha. rewrite Ha.
-  unfold no_struct in Hns. rewrite Hns, Hstr. cbn [Bool.eqb negb andb]. reflexivity.
+  intros fill inp st s Hst Ha Hstr Hns Hroom. unfold step. rewrite Hst. unfold is_arg in Ha. rewrite Ha.
+  unfold no_struct in Hns. rewrite Hns, Hstr. cbn [Bool.eqb negb andb].
+  destruct (MAX_SIZE <? m_total st + ALIGN (s_size s) 4) eqn:E; [lia|]. reflexivity.
 Qed.
 
 (* an integer or character argument, anywhere in a call: the bytes appended are the low bytes of the
@@ -944,8 +932,9 @@ Qed.
 Theorem int_arg_roundtrip : forall syms fill inp st s w,
   m_stop st = false -> is_arg s -> lenN (m_val st) = VAL_SIZE ->
   arg_word inp s = Some w ->
+  m_total st + ALIGN (s_size s) 4 <= MAX_SIZE ->
   (int_fmt (s_fmt s) /\ (s_size s = 1 \/ s_size s = 2 \/ s_size s = 4 \/ s_size s = 8) /\ ~ neg32_class s w) \/
-  (s_fmt s = FChar /\ (s_size s = 1 \/ s_size s = 2 \/ s_size s = 4)) ->
+  (s_fmt s = FChar /\ (s_size s = 1 \/ s_size s = 2 \/ s_size s = 4 \/ s_size s = 8)) ->
   exists chunk,
     m_done (step fill inp false st s) = m_done st ++ chunk /\
     lenN chunk = ALIGN (s_size s) 4 /\
@@ -953,7 +942,7 @@ Theorem int_arg_roundtrip : forall syms fill inp st s w,
     forall later, In (fst (show_one syms s (chunk ++ later))) (accept s (AInt w)) /\
                   snd (show_one syms s (chunk ++ later)) = lenN chunk.
 Proof.
-  intros syms fill inp st s w Hst Ha Hval Hw Hk.
+  intros syms fill inp st s w Hst Ha Hval Hw Hroom Hk.
   assert (Hsz : s_size s = 1 \/ s_size s = 2 \/ s_size s = 4 \/ s_size s = 8) by tauto.
   assert (Hstr : is_strfmt (s_fmt s) = false).
   { destruct Hk as [([-> | [-> | [-> | [-> | ->]]]] & _) | (-> & _)]; reflexivity. }
@@ -975,4 +964,144 @@ Proof.
   - rewrite Hc. destruct Hk as [(Hf & Hs & Hn) | (Hf & Hs)].
     + apply (int_shown syms s w later Hf Hs Hn).
     + apply (char_shown syms s w later Hf Hs).
+Qed.
+
+(* ------------------------------------------------------------------ a string argument, from the pointer to the text *)
+Lemma bound_eq : forall total, total <= MAX_SIZE -> (MAX_SIZE + U32 - total mod U32) mod U32 = MAX_SIZE - total.
+Proof.
+  intros total H. unfold MAX_SIZE, ARGBUF_SIZE, U32 in *. rewrite (N.mod_small total) by lia.
+  replace (1024 - 4 + 4294967296 - total) with ((1024 - 4 - total) + 1 * 4294967296) by lia.
+  rewrite N.mod_add by lia. apply N.mod_small. lia.
+Qed.
+
+Lemma takeN_all : forall {A} n (l : list A), lenN l <= n -> takeN n l = l.
+Proof. intros. unfold takeN, lenN in *. apply firstn_all2. lia. Qed.
+
+Lemma fetch_ptr : forall inp s val p,
+  arg_word inp s = Some p -> lenN val = VAL_SIZE -> s_size s = 8 -> p < 2 ^ 64 ->
+  of_le (takeN 8 (get_arg inp s val)) = p.
+Proof.
+  intros inp s val p Hw Hval Hs Hp.
+  pose proof (fetch_word inp s val p Hw Hval ltac:(right; right; right; exact Hs)) as H.
+  rewrite Hs in H. change (ALIGN 8 4) with 8 in H. rewrite H.
+  rewrite takeN_all by (rewrite lenN_le_bytes; lia).
+  rewrite of_le_le_bytes. change (256 ^ N.of_nat 8) with (2 ^ 64). apply N.mod_small. exact Hp.
+Qed.
+
+Lemma step_str : forall fill inp st s p c,
+  m_stop st = false -> is_arg s -> s_fmt s = FStr -> s_size s = 8 -> lenN (m_val st) = VAL_SIZE ->
+  arg_word inp s = Some p -> p < 2 ^ 64 -> p <> 0 -> assoc p (strs inp) = Some c ->
+  m_total st + 4 <= MAX_SIZE ->
+  step fill inp false st s =
+  let '(dst, len) := copy_loop (c ++ [0]) 0 (MAX_SIZE - m_total st) [] 0 in
+  emit fill st (get_arg inp s (m_val st)) (le_bytes 2 len ++ takeN (MAX_SIZE - m_total st - 2) dst) (ALIGN (len + 2) 4).
+Proof.
+  intros fill inp st s p c Hst Ha Hf Hs Hval Hw Hp Hp0 Hc Hroom.
+  unfold step. rewrite Hst. unfold is_arg in Ha. rewrite Ha, Hf.
+  cbn [Bool.eqb negb andb fmt_eqb is_strfmt].
+  destruct (MAX_SIZE <? m_total st + 4) eqn:E4; [lia|].
+  rewrite (fetch_ptr inp s (m_val st) p Hw Hval Hs Hp).
+  destruct (p =? 0) eqn:E0; [lia|].
+  assert (Hr : readable inp p = true) by (unfold readable; rewrite Hc; reflexivity).
+  rewrite Hr, Hc, bound_eq by lia. reflexivity.
+Qed.
+
+Lemma nz_app : forall a b, nz a -> nz b -> nz (a ++ b).
+Proof. intros. apply Forall_app. split; assumption. Qed.
+
+Lemma nz_firstn : forall k a, nz a -> nz (firstn k a).
+Proof.
+  induction k; intros a H; [constructor|].
+  destruct a; [constructor|]. inversion H; subst. simpl. constructor; [assumption|]. apply IHk. assumption.
+Qed.
+
+Lemma nz_takeN : forall n a, nz a -> nz (takeN n a).
+Proof. intros. unfold takeN. apply nz_firstn. assumption. Qed.
+
+Lemma split_at : forall {A} (l : list A) n, n <= lenN l -> l = takeN n l ++ dropN n l /\ lenN (takeN n l) = n.
+Proof.
+  intros A l n H. unfold takeN, dropN, lenN in *. split.
+  - symmetry. apply firstn_skipn.
+  - rewrite firstn_length. lia.
+Qed.
+
+(* C09 strings, end to end for one argument at any position of any call: a readable, NUL-terminated string
+   whose encoding has room is shown as itself (up to ARG_STR_MAX characters) or as its first ARG_STR_MAX-3
+   characters and "..." (longer ones), quoted, raw or with the escapes of print_escaped_char *)
+Theorem str_arg_roundtrip : forall syms fill inp st s p c,
+  m_stop st = false -> is_arg s -> s_fmt s = FStr -> s_size s = 8 -> lenN (m_val st) = VAL_SIZE ->
+  arg_word inp s = Some p -> p < 2 ^ 64 -> p <> 0 -> assoc p (strs inp) = Some c ->
+  nz c -> c <> [255; 255; 255; 255] ->
+  m_total st + need s (AStr c) <= MAX_SIZE ->
+  exists chunk,
+    m_done (step fill inp false st s) = m_done st ++ chunk /\
+    lenN chunk = need s (AStr c) /\
+    m_total (step fill inp false st s) = m_total st + lenN chunk /\
+    forall later, In (fst (show_one syms s (chunk ++ later))) (accept s (AStr c)) /\
+                  snd (show_one syms s (chunk ++ later)) = lenN chunk.
+Proof.
+  intros syms fill inp st s p c Hst Ha Hf Hs Hval Hw Hp Hp0 Hc Hnz Hff Hroom.
+  unfold need in *.
+  assert (HA : forall x, x + 2 <= ALIGN (x + 2) 4) by (intro x; pose proof (ALIGN4_ge (x + 2)); lia).
+  assert (H4 : 4 <= ALIGN (N.min (lenN c) ARG_STR_MAX + 2) 4) by (unfold ALIGN; lia).
+  rewrite (step_str fill inp st s p c) by (try assumption; lia).
+  set (bound := MAX_SIZE - m_total st) in *.
+  (* the characters that end up in the payload *)
+  set (body := trunc_str c).
+  assert (Hbody : exists tl,
+            copy_loop (c ++ [0]) 0 bound [] 0 = (body ++ tl, N.min (lenN c) ARG_STR_MAX) /\
+            lenN body = N.min (lenN c) ARG_STR_MAX /\ nz body /\ body <> [255; 255; 255; 255]).
+  { unfold body, trunc_str.
+    destruct (lenN c <=? ARG_STR_MAX) eqn:E98.
+    - exists [0]. rewrite N.min_l by lia.
+      split; [|split; [reflexivity|split; assumption]].
+      apply copy_loop_short; [assumption|lia|].
+      rewrite N.min_l in Hroom by lia. pose proof (HA (lenN c)). unfold bound. lia.
+    - rewrite N.min_r in * by lia.
+      destruct (split_at c ARG_STR_MAX ltac:(lia)) as (Hsplit & Hl1).
+      set (s1 := takeN ARG_STR_MAX c) in *.
+      destruct (dropN ARG_STR_MAX c) as [|ch junk] eqn:Ed.
+      { exfalso. rewrite Hsplit, app_nil_r in E98. lia. }
+      assert (Hnz1 : nz s1) by (apply nz_takeN; exact Hnz).
+      assert (Hch : ch <> 0).
+      { unfold nz in Hnz. rewrite Hsplit in Hnz. apply Forall_app in Hnz. destruct Hnz as [_ Hn2].
+        inversion Hn2; assumption. }
+      exists [0].
+      assert (Ht : takeN (ARG_STR_MAX - 3) c = takeN (ARG_STR_MAX - 3) s1).
+      { unfold s1. symmetry. apply takeN_takeN. unfold ARG_STR_MAX. lia. }
+      rewrite Ht.
+      split.
+      + rewrite Hsplit at 1. rewrite <- app_assoc. cbn [app].
+        rewrite (copy_loop_long s1 ch (junk ++ [0]) bound Hnz1 Hl1 Hch).
+        * rewrite <- app_assoc. reflexivity.
+        * change (ALIGN (ARG_STR_MAX + 2) 4) with 100 in Hroom. unfold bound, ARG_STR_MAX. lia.
+      + split.
+        * rewrite lenN_app. unfold takeN, lenN. rewrite firstn_length.
+          unfold lenN in Hl1. simpl length. unfold ARG_STR_MAX in *. lia.
+        * split.
+          { apply nz_app; [apply nz_takeN; exact Hnz1|].
+            repeat constructor; lia. }
+          { intro Hx. apply (f_equal (@length N)) in Hx. rewrite app_length in Hx.
+            unfold takeN in Hx. rewrite firstn_length in Hx. unfold lenN in Hl1.
+            simpl length in Hx. unfold ARG_STR_MAX in *. lia. } }
+  destruct Hbody as (tl & Hcopy & Hlb & Hnzb & Hffb).
+  rewrite Hcopy. cbv beta iota.
+  rewrite <- Hlb in *.
+  assert (Hfit2 : lenN body + 2 <= bound) by (pose proof (HA (lenN body)); unfold bound; lia).
+  assert (Htk : exists tl', takeN (bound - 2) (body ++ tl) = body ++ tl').
+  { unfold takeN. rewrite firstn_app. rewrite firstn_all2 by (unfold lenN in *; lia). eexists. reflexivity. }
+  destruct Htk as (tl' & ->).
+  rewrite emit_done, emit_total.
+  set (chunk := fit (ALIGN (lenN body + 2) 4) fill (over (le_bytes 2 (lenN body) ++ body ++ tl') (m_ahead st))).
+  exists chunk. split; [reflexivity|].
+  assert (Hlc : lenN chunk = ALIGN (lenN body + 2) 4) by apply length_fit.
+  split; [exact Hlc|]. split; [rewrite Hlc; reflexivity|].
+  intro later.
+  assert (Hlt : lenN body < 65536).
+  { rewrite Hlb. unfold ARG_STR_MAX. lia. }
+  destruct (str_shown syms s fill body tl' (m_ahead st) later Hf Hnzb Hlt Hffb) as (Hshow & Hadv).
+  fold chunk in Hshow, Hadv.
+  split; [|rewrite Hadv, Hlc; reflexivity].
+  unfold accept. rewrite Hf. fold body. rewrite !app_nil_r.
+  destruct Hshow as [-> | ->]; [left|right; left]; reflexivity.
 Qed.
